@@ -226,7 +226,34 @@ def r11_2(ctx, m, L):
         drain_ok = True
         break
     if not mine:
-        ctx.violated("R11.2", L.where(), "no write of the collected results follows the collection loop", key_of(pf, "no-drain"))
+        # the ordered write may live in a helper called after the loop: helper(pq, output)
+        done = False
+        for st in after:
+            if isinstance(st, ast.Expr) and isinstance(st.value, ast.Call):
+                h = ctx.repo.resolve_call(pf, st.value)
+                if h is None or h.module is not m.mod:
+                    continue
+                amap = {p_: norm(a) for p_, a in zip(h.params, st.value.args)}
+                pq_params = {p_ for p_, a in amap.items() if a in m.pqueues}
+                out_params = {p_ for p_, a in amap.items() if a == out_param}
+                if not pq_params or not out_params:
+                    continue
+                ctx.analysed_func(h)
+                hw = [c for c in walk_own(h.node) if isinstance(c, ast.Call) and isinstance(c.func, ast.Attribute) and c.func.attr in ("write", "writelines") and norm(c.func.value) in out_params]
+                for w in hw:
+                    arg = w.args[0] if w.args else None
+                    from_get = arg is not None and any(isinstance(c, ast.Call) and isinstance(c.func, ast.Attribute) and c.func.attr == "get" and norm(c.func.value) in pq_params for c in ast.walk(arg))
+                    ok = from_get and w.func.attr == "write" and ".queue" not in norm(arg)
+                    ctx.check(ok, "R11.2", h.where(w), "the output is written from PriorityQueue.get() (smallest rank first), never from the channel item or the heap array", key_of(h, f"write:{norm(arg)}"), expr=norm(w))
+                    loop = next((n for n in walk_own(h.node) if isinstance(n, (ast.For, ast.While)) and any(x is w for x in ast.walk(n))), None)
+                    if loop is None:
+                        ctx.violated("R11.2", h.where(w), "the ordered write is not inside a drain loop", key_of(h, "drain-loop-missing"))
+                    else:
+                        ok_n, why = _drain_count_ok(h, loop, pq_params, h.node.body)
+                        ctx.check(ok_n, "R11.2", h.where(loop), "the drain loop runs once per queued item (range(len(pq.queue)) / until empty)", key_of(h, f"drain-count:{why}"), why=why)
+                    done = True
+        if not done:
+            ctx.violated("R11.2", L.where(), "no write of the collected results follows the collection loop", key_of(pf, "no-drain"))
 
 
 def _drain_count_ok(pf, loop, pqueues, after):
@@ -395,11 +422,11 @@ def r11_5_batches(ctx, m):
     rl = rec_loops[0]
     # batch variable: first arg of args=(batch, queue)
     batch_vars = set()
-    for c in m.proc_ctor_calls:
-        args = [k.value for k in c.keywords if k.arg == "args"]
-        if args and isinstance(args[0], ast.Tuple) and args[0].elts:
-            batch_vars.add(norm(args[0].elts[0]))
-            ch = norm(args[0].elts[1]) if len(args[0].elts) > 1 else None
+    for site in m.ctor_sites:
+        c = site.node
+        if site.batch is not None:
+            batch_vars.add(norm(site.batch))
+            ch = norm(site.queue) if site.queue is not None else None
             ctx.check(ch in m.channels, "R11.5", pf.where(c), "the worker is handed the result queue that the collection loop reads", key_of(pf, f"worker-queue:{ch}"), queue=ch)
     if len(batch_vars) != 1:
         raise AnalysisError("R11.5", pf.where(), f"cannot identify the batch list variable ({batch_vars})")
